@@ -18,7 +18,8 @@ from . import data_c
 
 CLN = Function('CLN', ESeq, BoolSort())        # no bare-token argument anywhere inside (C08 side condition)
 clean = Function('clean', E, BoolSort())
-NT = Function('nametight', E, BoolSort())      # \begin{name}: the name group is a tight brace group without blanks
+NT = Function('nametight', E, BoolSort())
+closer5 = Function('closer5', E, BoolSort())   # closed by exactly the five tokens \ end { name } (else finding D5)      # \begin{name}: the name group is a tight brace group without blanks
 
 
 @REG.specfun('clean')
@@ -41,7 +42,11 @@ def wft_z(eng, Q, k):
     fs = [Length(tx) > 0, ct >= TC['Escape'], ct <= max(TC.values()),
           Implies(ct == TC['Escape'], tx == pystr('\\')),
           Implies(ct == TC['MergedSpacer'], NW(tx) == Empty(Str)),
-          Implies(Or(ct == TC['CommandName'], ct == TC['PunctuationCommandName']), NW(tx) == tx)]
+          Implies(Or(ct == TC['CommandName'], ct == TC['PunctuationCommandName']),
+                  And(NW(tx) == tx, str_strip(tx) == tx)),
+          # with no NUL/DEL in the input, a backslash token is followed by a name token (or by nothing)
+          Implies(And(ct == TC['Escape'], k + 1 < Length(Q)),
+                  Or(Tok.cat(Q[k + 1]) == TC['CommandName'], Tok.cat(Q[k + 1]) == TC['PunctuationCommandName']))]
     for cls in data_c.GROUPS + data_c.MATHS:
         b, e = eng.repo.class_attr(cls, 'begin'), eng.repo.class_attr(cls, 'end')
         tb, te = int(eng.repo.class_attr(cls, 'token_begin')), int(eng.repo.class_attr(cls, 'token_end'))
@@ -60,11 +65,12 @@ def _wft(ctx, buf, k):
 
 
 WFT = A('token-stream', 'forall(k, 0, len(src.Q), wft(src, k))')
-SRC_REQ = [A('inv', 'inv(src)'), WFT, A('cursor-in-range', 'src.i <= len(src.Q)')]
-SRC_KEEP = [A('inv', 'inv(src)'), A('cursor-in-range', 'src.i <= len(src.Q)'), A('cursor-monotone', 'src.i >= old(src.i)')]
+# the cursor may stand beyond the end (read_env's fixed `forward(5)`, finding D5); nothing below relies on i <= |T|
+SRC_REQ = [A('inv', 'inv(src)'), WFT]
+SRC_KEEP = [A('inv', 'inv(src)'), A('cursor-monotone', 'src.i >= old(src.i)')]
 ALLOWED = {'EOFError': Raises(None, kind='P', props=['C06']), 'TypeError': Raises(None, kind='P', props=['C06']),
            'AssertionError': Raises(None, kind='P', props=['C06'])}
-MEASURE = 'len(src.Q) - src.i'
+MEASURE = 'max(len(src.Q) - src.i, 0)'
 RANK = {'read_spacer': 0, 'read_expr': 1, 'read_arg': 2, 'read_arg_optional': 3, 'read_arg_required': 3, 'read_args': 4,
         'read_command': 5, 'read_item': 6, 'read_math_env': 6, 'read_env': 6, 'read_skip_env': 6, 'read_tex': 7}
 
@@ -77,7 +83,7 @@ def Wx(a, b):
 REG.add(Contract(
     'reader.read_spacer', types={'buf': 'Buffer'}, result='strlike',
     requires=[A('inv', 'inv(buf)'), A('token-stream', 'forall(k, 0, len(buf.Q), wft(buf, k))'),
-              A('cursor-in-range', 'buf.i <= len(buf.Q)')],
+              ],
     modifies=['buf.i', 'buf.m'], props=['C06', 'C09'],
     ensures=[P(['C09'], 'takes-one-spacer-token',
                '(old(buf.i) < len(buf.Q) and buf.Q[old(buf.i)].cat == TC.MergedSpacer) ==> '
@@ -85,7 +91,7 @@ REG.add(Contract(
              P(['C09'], 'otherwise-nothing',
                'not (old(buf.i) < len(buf.Q) and buf.Q[old(buf.i)].cat == TC.MergedSpacer) ==> '
                'buf.i == old(buf.i) and len(result) == 0'),
-             A('inv', 'inv(buf)'), A('cursor-in-range', 'buf.i <= len(buf.Q)')]))
+             A('inv', 'inv(buf)')]))
 
 # ---------------------------------------------------------------------- unclosed_env_handler: always a diagnostic EOFError
 REG.add(Contract(
@@ -99,10 +105,24 @@ def publish_ghost(eng, st, obj, e, sz, A_, C_):
     cls = obj.a['cls']
     st.fact(Implies(Length(A_) == 0, CLN(A_)))
     st.fact(Implies(Length(C_) == 0, CLN(C_)))
-    st.fact(clean(e) == And(Not(BARE(A_)), CLN(A_), CLN(C_)))
+    if cls != 'data.TexNamedEnv':
+        st.fact(clean(e) == And(Not(BARE(A_)), CLN(A_), CLN(C_)))
     st.fact(NW(sz) == NW(ser(e)))
     if cls == 'data.TexNamedEnv':
-        st.fact(tight(e) == And(NT(e), TAg(A_), TL(C_)))
+        # closer5(e): the environment was closed by exactly the five tokens  \ end { name }  (otherwise finding D5)
+        five = BoolVal(False)
+        for ref, f in st.heap.items():
+            if 'Q' in f and 'i' in f and f['Q'].ty == 'seq' and f['Q'].a['elem'] == 'tok':
+                Q, i = f['Q'].z, f['i'].z
+                TCv = eng.repo.enum('TC')
+                five = And(i >= 5, i <= Length(Q), Tok.cat(Q[i - 5]) == TCv['Escape'], Tok.text(Q[i - 4]) == pystr('end'),
+                           Tok.cat(Q[i - 3]) == TCv['GroupBegin'], Tok.text(Q[i - 2]) == st.heap[obj.a['ref']]['name'].z,
+                           Tok.cat(Q[i - 1]) == TCv['GroupEnd'])
+                for d in range(1, 6):
+                    eng.touch(st, i - d)
+        st.fact(closer5(e) == five)
+        st.fact(clean(e) == And(Not(BARE(A_)), CLN(A_), CLN(C_), closer5(e), NT(e)))
+        st.fact(tight(e) == And(NT(e), TAg(A_), TL(C_), closer5(e)))
         g = obj.a.get('name_group')
         if g is not None:       # defining equation of the ghost predicate NT for this fresh expression
             st.fact(NT(e) == And(tight(g), Not(gapped(g)), Not(isbare(g)), kind(g) == kind_of('data.BraceGroup'),
@@ -137,6 +157,7 @@ MOVE_IMAGE_HOOKS.append(lambda st, cond, whole, left, right: st.fact(
 
 def nw_base(eng, st, names):
     st.fact(NW(Empty(Str)) == Empty(Str))
+    st.fact(str_strip(Empty(Str)) == Empty(Str))
 
 
 REG.entry_hooks.append(nw_base)
@@ -185,7 +206,7 @@ REG.add(Contract(
         G('gapped', 'gapped(result) == (old(src.i) >= 2 and src.Q[old(src.i) - 2].cat == TC.MergedSpacer)'),
         G('not-bare', 'not isbare(result)')],
     loops={0: Loop(ghost={'content': 'hlist[1,E]'},
-                   invariant=[A('inv', 'inv(src)'), A('range', 'old(src.i) <= src.i and src.i <= len(src.Q)'),
+                   invariant=[A('inv', 'inv(src)'), A('range', 'old(src.i) <= src.i'),
                               A('exact', 'tolerance == 0 and TL(content[1:]) ==> SL(content[1:]) == '
                                 + Wx('old(src.i)', 'src.i')),
                               A('non-blank', 'tolerance == 0 and CLN(content[1:]) ==> NW(SL(content[1:])) == NW(%s)'
@@ -200,7 +221,8 @@ REG.add(Contract(
     measure=(MEASURE, RANK['read_expr']), raises=dict(ALLOWED),
     ensures=SRC_KEEP + [
         A('progress', 'src.i > old(src.i)'),
-        P(['C13'], 'position', 'epos(result) == src.Q[old(src.i)].position'),
+        P(['C13'], 'position', 'kind(result) != K("TexText") ==> epos(result) == src.Q[old(src.i)].position'),
+        P(['C13', 'C02'], 'text-leaf-is-the-token', 'kind(result) == K("TexText") ==> etok(result) == src.Q[old(src.i)]'),
         P(['C08', 'C01'], 'exact-when-tight', 'tolerance == 0 and tight(result) ==> ser(result) == ' + _RE_SPAN),
         P(['C08'], 'conserves-non-blank', 'tolerance == 0 and clean(result) ==> NW(ser(result)) == NW(%s)' % _RE_SPAN),
         G('not-bare', 'not isbare(result)')]))
@@ -218,7 +240,7 @@ def args_clauses(old_items, old_i, strict='tolerance == 0'):
         ('exact', '%s and TAg(args.items) ==> SL(args.items) == concat(SL(%s), %s)' % (strict, old_items, span)),
         ('non-blank', '%s and CLN(args.items) and not bare(args.items) ==> '
                       'NW(SL(args.items)) == concat(NW(SL(%s)), NW(%s))' % (strict, old_items, span)),
-        ('groups-or-commands', 'forall(k, 0, len(args.items), isarg(args.items[k]))'),
+        ('groups-or-commands', 'allargs(args.items)'),
     ]
 
 
@@ -227,12 +249,12 @@ def count_clauses(var, init):
             ('count-nonneg', '%s >= 0 ==> %s >= 0' % (init, var))]
 
 
-ARGS_REQ = SRC_REQ + [A('groups-or-commands', 'forall(k, 0, len(args.items), isarg(args.items[k]))')]
+ARGS_REQ = SRC_REQ + [A('groups-or-commands', 'allargs(args.items)')]
 _LOOP_TYPES = {'src': 'Buffer', 'args': 'TexArgs', 'tolerance': 'int', 'mode': 'str'}
 
 for _fn, _n, _open, _props in (('read_arg_optional', 'n_optional', 'TC.BracketBegin', ['C09']),
                                ('read_arg_required', 'n_required', 'TC.GroupBegin', ['C09'])):
-    _maximal = ('result == 0 or src.i == len(src.Q) or (src.Q[src.i].cat != %s and not (src.Q[src.i].cat == '
+    _maximal = ('result == 0 or src.i >= len(src.Q) or (src.Q[src.i].cat != %s and not (src.Q[src.i].cat == '
                 'TC.MergedSpacer and src.i + 1 < len(src.Q) and src.Q[src.i + 1].cat == %s))' % (_open, _open))
     _ens = [P(['C08', 'C01'] if l in ('exact', 'non-blank') else [], l, t) if l in ('exact', 'non-blank') else A(l, t)
             for l, t in args_clauses('old(args.items)', 'old(src.i)')]
@@ -246,7 +268,7 @@ for _fn, _n, _open, _props in (('read_arg_optional', 'n_optional', 'TC.BracketBe
         _ens.append(P(['C08'], 'bare-only-with-signature', '%s <= 0 ==> bare(args.items) == bare(old(args.items))' % _n))
     _inv = [A(l, t) for l, t in args_clauses('old(args.items)', 'old(src.i)')] + \
            [A(l, t) for l, t in count_clauses(_n, 'old(%s)' % _n)] + \
-           [A('inv', 'inv(src)'), A('range', 'old(src.i) <= src.i and src.i <= len(src.Q)')]
+           [A('inv', 'inv(src)'), A('range', 'old(src.i) <= src.i')]
     if _fn == 'read_arg_optional':
         _inv.append(A('no-bare-added', 'bare(args.items) == bare(old(args.items))'))
     else:
@@ -271,7 +293,7 @@ REG.add(Contract(
         P(['C12'], 'zero-signature-takes-nothing',
           'n_required == 0 and n_optional == 0 ==> src.i == old(src.i) and len(result.items) == 0'),
         P(['C08'], 'bare-only-with-signature', 'n_required <= 0 ==> not bare(result.items)'),
-        A('groups-or-commands', 'forall(k, 0, len(result.items), isarg(result.items[k]))')]))
+        A('groups-or-commands', 'allargs(result.items)')]))
 
 
 # ---------------------------------------------------------------------- read_command
@@ -303,8 +325,8 @@ REG.add(Contract(
     requires=[A('inv', 'inv(buf)'), A('token-stream', 'forall(k, 0, len(buf.Q), wft(buf, k))'),
               A('skip', '0 <= skip and buf.i + skip <= len(buf.Q)')],
     modifies=['buf.i', 'buf.m'], props=['C06', 'C08', 'C02', 'C12', 'C01'],
-    measure=('len(buf.Q) - buf.i', RANK['read_command']), raises=dict(ALLOWED),
-    ensures=[A('inv', 'inv(buf)'), A('cursor-in-range', 'buf.i <= len(buf.Q)'),
+    measure=('max(len(buf.Q) - buf.i, 0)', RANK['read_command']), raises=dict(ALLOWED),
+    ensures=[A('inv', 'inv(buf)'),
              A('cursor-monotone', 'buf.i >= old(buf.i) + skip'),
              P(['C02'], 'name-token', _HASNAME + ' ==> result[0] == buf.Q[old(buf.i) + skip] and buf.i >= old(buf.i) + skip + 1'),
              P(['C06'], 'lone-backslash', 'not (%s) ==> len(result[0].text) == 0 and len(result[1].items) == 0 and '
@@ -319,8 +341,11 @@ REG.add(Contract(
              P(['C08'], 'bare-only-with-signature',
                '%s and n_required_args < 0 and n_optional_args < 0 and not bare_arg_name(buf.Q[old(buf.i) + skip]) ==> '
                'not bare(result[1].items)' % _HASNAME),
+             A('name-split', '%s ==> W(buf, old(buf.i) + skip, buf.i) == concat(result[0].text, %s) and '
+                             'NW(W(buf, old(buf.i) + skip, buf.i)) == concat(NW(result[0].text), NW(%s))'
+               % (_HASNAME, _RC_SPAN, _RC_SPAN)),
              A('no-bare-when-none-required', 'n_required_args == 0 ==> not bare(result[1].items)'),
-             A('groups-or-commands', 'forall(k, 0, len(result[1].items), isarg(result[1].items[k]))')],
+             A('groups-or-commands', 'allargs(result[1].items)')],
     loops={0: Loop(invariant=[A('inv', 'inv(buf)'), A('cursor', 'buf.i == old(buf.i) + _k'), A('bound', '_k <= skip')],
                    modifies=['buf.i', 'buf.m'])}))
 
@@ -332,10 +357,10 @@ _tree.LEAF_HOOKS.append(lambda st, e: st.fact(And(clean(e), Not(isbare(e)))))
 
 
 # ---------------------------------------------------------------------- read_item
-_STOP_ITEM = ('src.i == len(src.Q) or src.Q[src.i].cat == TC.GroupEnd or (src.Q[src.i].cat == TC.Escape and '
+_STOP_ITEM = ('src.i >= len(src.Q) or src.Q[src.i].cat == TC.GroupEnd or (src.Q[src.i].cat == TC.Escape and '
               'src.i + 1 < len(src.Q) and (src.Q[src.i + 1].text == "end" or src.Q[src.i + 1].text == "item"))')
 _LIST_INV = lambda var: [
-    A('inv', 'inv(src)'), A('range', 'old(src.i) <= src.i and src.i <= len(src.Q)'),
+    A('inv', 'inv(src)'), A('range', 'old(src.i) <= src.i'),
     A('exact', 'tolerance == 0 and TL(%s) ==> SL(%s) == %s' % (var, var, Wx('old(src.i)', 'src.i'))),
     A('non-blank', 'tolerance == 0 and CLN(%s) ==> NW(SL(%s)) == NW(%s)' % (var, var, Wx('old(src.i)', 'src.i')))]
 REG.add(Contract(
@@ -374,7 +399,7 @@ data_c.CONCAT_HOOKS.append(lambda st, old, add, new: st.fact(CLN(new) == And(CLN
 
 # ---------------------------------------------------------------------- read_env / read_skip_env
 _ENDTXT = 'concat("\\\\end{", expr.name, "}")'
-_FIVE = ('src.i >= old(src.i) + 5 and src.Q[src.i - 5].cat == TC.Escape and src.Q[src.i - 4].text == "end" and '
+_FIVE = ('src.i >= 5 and src.i <= len(src.Q) and src.Q[src.i - 5].cat == TC.Escape and src.Q[src.i - 4].text == "end" and '
          'src.Q[src.i - 3].cat == TC.GroupBegin and src.Q[src.i - 2].text == expr.name and '
          'src.Q[src.i - 1].cat == TC.GroupEnd')
 _ENV_TYPES = {'src': 'Buffer', 'expr': 'UExpr:data.TexNamedEnv', 'skip_envs': 'seq[str]', 'tolerance': 'int',
@@ -393,6 +418,7 @@ REG.add(Contract(
         A('same-object', 'result is expr'),
         A('tight-monotone', 'TL(expr.contents) ==> TL(old(expr.contents))'),
         A('clean-monotone', 'CLN(expr.contents) ==> CLN(old(expr.contents))'),
+        A('strict-consumes-the-closer', 'tolerance == 0 ==> src.i >= old(src.i) + 5'),
         _env_exact.outside('D5', _FIVE), _env_nonblank.outside('D5', _FIVE)],
     loops={0: Loop(ghost={'contents': 'seq[E]'}, invariant=_LIST_INV('contents'), decreases=MEASURE,
                    modifies=['src.i', 'src.m'])}))
@@ -405,6 +431,7 @@ REG.add(Contract(
         A('same-object', 'result is expr'),
         P(['C11'], 'body-is-one-raw-text', 'len(expr.contents) <= len(old(expr.contents)) + 1'),
         A('tight-monotone', 'TL(expr.contents) ==> TL(old(expr.contents))'),
+        A('consumes-the-closer', 'src.i >= old(src.i) + 5'),
         A('clean-monotone', 'CLN(expr.contents) ==> CLN(old(expr.contents))'),
         P(['C08', 'C11', 'C01'], 'exact',
           'concat(SL(expr.contents), %s) == concat(SL(old(expr.contents)), %s)'
